@@ -6,6 +6,8 @@ through the state): what a drain on the available prefix `s` of the data `s ++ t
 prefix of the full unit stream, the rest of the stream is obtained by resuming from the reached
 state on the unconsumed bits plus the bits still to come, the drain stops only for `insufficient`,
 and with all data present (and `lookahead` bits following the units) it does not stop early.
+Only `WeakLazyOf L` is assumed: the lookup need not be monotone in the available data; the
+argument goes through the prefix-safety of the specification's unit.
 -/
 import Qco.Lemmas.StreamUnit
 namespace Qco
@@ -83,7 +85,7 @@ theorem drainR_succ_insufficient {σ : Type} (u : σ → Parser (Nat × σ)) (m 
   simp only [drainR, h]
 
 /-- the operational drain on an available prefix, against the specification's unit stream -/
-theorem drainR_spec (L : Matcher) (hL : LazyOf L) (t : Table) (hct : completeTree t.codes = true)
+theorem drainR_spec (L : Matcher) (hL : WeakLazyOf L) (t : Table) (hct : completeTree t.codes = true)
     (n m : Nat) (hm : m ≤ n) (st : UState) (pos : Nat) (s tl : Bits)
     (xs : List Nat) (stf : UState) (rf : Bits)
     (hfull : iterUnits (unit t) n st (s ++ tl) = .ok (xs, stf) rf)
@@ -107,8 +109,9 @@ theorem drainR_spec (L : Matcher) (hL : LazyOf L) (t : Table) (hct : completeTre
       rcases unitL_ok_or_insufficient L hL t hct (st, pos) s with ⟨a, r1, hu⟩ | hu
       · obtain ⟨x, st1, pos1⟩ := a
         rw [drainR_succ_ok _ _ _ _ _ _ _ hu] at hd
-        have hext := (safe_unitL L hL t hct (st, pos)).ok_ext s _ r1 tl hu
-        have hsp := unitL_sound L hL t hct st pos (s ++ tl) x st1 pos1 (r1 ++ tl) hext
+        -- soundness on the available prefix, then prefix-safety of the SPECIFICATION's unit
+        have hsp0 := unitL_sound L hL t hct st pos s x st1 pos1 r1 hu
+        have hsp := (safe_unit t (completeTree_prefixFree _ hct) st).ok_ext s _ r1 tl hsp0
         rw [hsp] at hfull; simp only at hfull
         cases hit : iterUnits (unit t) n st1 (r1 ++ tl) with
         | ok w r2 =>
@@ -119,7 +122,7 @@ theorem drainR_spec (L : Matcher) (hL : LazyOf L) (t : Table) (hct : completeTre
           obtain ⟨ys', ⟨st2', pos2'⟩, r2', why2⟩ := D
           obtain ⟨⟨xs2, hxs, hres⟩, hwhy, hlen, hall⟩ :=
             ih n (by omega) st1 pos1 r1 xs' hit _ _ _ _ _ hD
-          have hr1 := suffix_length_le (safe_unitL L hL t hct (st, pos)) hu
+          have hr1 := unit_rest_le t st s _ _ hsp0
           cases hd
           refine ⟨⟨xs2, by simp [hxs], ?_⟩, ?_, Nat.le_trans hlen hr1, hall⟩
           · simp only [List.length_cons]
